@@ -7,4 +7,7 @@
 namespace ys {
 struct tw_dbg : yorel::yomm2::policy::debug::rebind<tw_dbg> {};
 struct tw_rel : yorel::yomm2::policy::release::rebind<tw_rel> {};
+// the construction world (tw.cpp): methods called from the constructor and
+// the destructor of an abstract base
+struct cw_policy : yorel::yomm2::policy::debug::rebind<cw_policy> {};
 } // namespace ys
